@@ -130,6 +130,7 @@ fn fam_pow<const N: usize, const E: usize>(ctx: &Ctx) {
             chk!(cs, "BoxedMontyForm::pow_bounded_exp", &exp, Out::v(&bw(&xb.pow_bounded_exp(&be, k).retrieve())));
             chk!(cs, "BoxedMontyForm:PowBoundedExp", &exp, Out::v(&bw(&PowBoundedExp::pow_bounded_exp(&xb, &be, k).retrieve())));
             // canonical form of the result
+            cs.group();
             chk!(cs, "MontyForm::pow_bounded_exp (representative < m)", &Out::Val(vec![1]), {
                 let r = x.pow_bounded_exp(&ue, k);
                 Out::Val(vec![(to_big(&w(r.as_montgomery())) < *m || m.is_one()) as u64])
